@@ -1,5 +1,6 @@
 //! Executor for GenericManualResetEvent (model: coq/Model/Event.v).
 use crate::core::*;
+use crate::lib_or_panic;
 use futures_core::future::FusedFuture;
 use futures_intrusive::sync::{GenericManualResetEvent, GenericWaitForEventFuture};
 use futures_intrusive::verif::VerifNode;
@@ -46,7 +47,7 @@ impl<M: RawMutex + 'static> Exec for EventExec<M> {
         match op {
             [0, f] if (*f as usize) < self.futs.len() && !self.futs.alive(*f as usize) => {
                 let ev = self.ev;
-                let fut = lib(|| ev.wait()).unwrap();
+                let fut = lib_or_panic!(o, || ev.wait());
                 self.futs.put(*f as usize, fut);
                 o.r = vec![R_UNIT];
             }
